@@ -1,1 +1,102 @@
-From TV Require Import Base.
+From TV Require Import Base Model.Wiring Model.Config Proofs.WiringP Proofs.TickerP.
+
+(* ---------- dispatch *)
+Lemma validate_spec r tag known :
+  snd (validate r tag known) = if known && memb tag (r_classes r) then Chosen tag else Rejected.
+Proof.
+  unfold validate. destruct known; simpl; [|reflexivity].
+  destruct (r_cache r); simpl; [reflexivity|]. destruct (r_classes r) as [|c [|c2 l]]; reflexivity.
+Qed.
+
+Lemma validate_classes r tag known : r_classes (fst (validate r tag known)) = r_classes r.
+Proof.
+  unfold validate. destruct known; simpl; [|reflexivity].
+  destruct (r_cache r); simpl; [reflexivity|]. destruct (r_classes r) as [|c [|c2 l]] eqn:E; simpl; auto.
+Qed.
+
+(* the cached union, when present, was built over exactly the registered classes *)
+Definition cache_ok (r : registry) : Prop :=
+  match r_cache r with None => True | Some l => l = r_classes r end.
+
+Lemma cache_ok_define r c : cache_ok (define r c).
+Proof. exact I. Qed.
+
+Lemma cache_ok_validate r tag known : cache_ok r -> cache_ok (fst (validate r tag known)).
+Proof.
+  unfold validate, cache_ok. destruct known; simpl; [|auto].
+  destruct (r_cache r) eqn:E; simpl; [rewrite E; auto|].
+  destruct (r_classes r) as [|c [|c2 l]] eqn:E2; simpl; rewrite ?E; auto.
+Qed.
+
+(* the classes known after a prefix of events *)
+Fixpoint defined (init : list cls) (evs : list cev) : list cls :=
+  match evs with
+  | [] => init
+  | Define c :: t => defined (if memb c init then init else init ++ [c]) t
+  | Validate _ _ :: t => defined init t
+  end.
+
+Lemma run_reg_spec evs : forall r,
+  cache_ok r ->
+  forall pre tag known post, evs = pre ++ Validate tag known :: post ->
+  nth_error (run_reg r evs) (length (filter (fun e => match e with Validate _ _ => true | _ => false end) pre)) =
+  Some (if known && memb tag (defined (r_classes r) pre) then Chosen tag else Rejected).
+Proof.
+  induction evs as [|e t IH]; intros r Hc pre tag known post E.
+  - destruct pre; discriminate.
+  - destruct pre as [|e' pre'].
+    + simpl in E. inversion E; subst. simpl.
+      destruct (validate r tag known) as [r' v] eqn:Ev. simpl.
+      assert (Hs := validate_spec r tag known). rewrite Ev in Hs. simpl in Hs. rewrite Hs. reflexivity.
+    + simpl in E. inversion E; subst. destruct e' as [c|tg kn]; simpl.
+      * rewrite (IH (define r c) (cache_ok_define r c) pre' tag known post eq_refl). reflexivity.
+      * destruct (validate r tg kn) as [r' v] eqn:Ev. simpl.
+        assert (Hcl := validate_classes r tg kn). rewrite Ev in Hcl. simpl in Hcl.
+        assert (Hok := cache_ok_validate r tg kn Hc). rewrite Ev in Hok. simpl in Hok.
+        rewrite (IH r' Hok pre' tag known post eq_refl). rewrite Hcl. reflexivity.
+Qed.
+
+(* ---------- wiring handed to the scheduler *)
+Lemma wiring_of_lookup es : forall acc n,
+  lookup n (fold_left (fun iw (e : entry) => upd (fst e) (snd e) iw) es acc) =
+  match last_write n es with Some ins => Some ins | None => lookup n acc end.
+Proof.
+  induction es as [|[m ins] t IH]; intros acc n; simpl; [reflexivity|].
+  rewrite IH. destruct (last_write n t); [reflexivity|]. rewrite lookup_upd. destruct (Pos.eqb n m); reflexivity.
+Qed.
+
+Lemma wiring_of_exact es n ins :
+  NoDup (map fst es) -> (lookup n (wiring_of es) = Some ins <-> In (n, ins) es).
+Proof.
+  intros Hnd. unfold wiring_of. rewrite wiring_of_lookup. simpl.
+  assert (Hlw : last_write n es = lookup n es).
+  { apply last_write_lookup. exact Hnd. }
+  rewrite Hlw. destruct (lookup n es) eqn:E.
+  - split.
+    + intros H. inversion H; subst. apply lookup_In. exact E.
+    + intros H. apply (lookup_In_iff es n ins Hnd) in H. congruence.
+  - split; [discriminate|]. intros H. apply (lookup_In_iff es n ins Hnd) in H. congruence.
+Qed.
+
+(* ---------- selection *)
+Lemma select_spec es req l :
+  select es req = Some l ->
+  forall x, In x l <-> In x (map fst es) /\ match req with None => True | Some r => In x r end.
+Proof.
+  unfold select. destruct req as [r|].
+  - destruct (forallb (fun n => memb n (map fst es)) r) eqn:E; [|discriminate].
+    intros H. inversion H; subst. intros x. rewrite filter_In, dedup_In, memb_In. reflexivity.
+  - intros H. inversion H; subst. intros x. rewrite dedup_In. intuition.
+Qed.
+
+Lemma select_rejects es r :
+  select es (Some r) = None <-> exists n, In n r /\ ~ In n (map fst es).
+Proof.
+  unfold select. destruct (forallb (fun n => memb n (map fst es)) r) eqn:E.
+  - split; [discriminate|]. intros [n [Hn Hni]]. rewrite forallb_forall in E. apply E in Hn. apply memb_In in Hn. contradiction.
+  - split; [|reflexivity]. intros _. clear - E.
+    induction r as [|a r IH]; simpl in E; [discriminate|].
+    destruct (memb a (map fst es)) eqn:Ea; simpl in E.
+    + destruct (IH E) as [n [Hn Hni]]. exists n. split; [right; exact Hn | exact Hni].
+    + exists a. split; [left; reflexivity | apply memb_false; exact Ea].
+Qed.
